@@ -21,7 +21,8 @@ RULE = ("random perfect-recall trees (|payoff| <= 1e6) x {Full, Sampled, Externa
         "thresholds {-1,0,1e-3,+inf,NaN} x threads {0,1,2,3,16} with live production samplers or pinned draws and seeded "
         "yield points; thread counts at the usize::MAX/3 boundary run in a child process under ulimit -v; RegretParams::new "
         "acceptance on NaN/negative/infinite tuples; non-trivial = T >= 1 with >= 2 threads or a non-preset tuple; distinct by "
-        "(tree, config) hash")
+        "(tree, config) hash; plus a binary64-underflow stress family (averaging exponent 50..300 over 600..1500 iterations; a "
+        "chain of 200-270 sixteen-way decisions of one player) judged by the validity monitor only")
 ASSUMPTIONS = ["OS-level thread creation, allocator failure and rayon internals are runtime behaviour outside the model; "
                "ThreadSpawnError is accepted as the documented error for absurd thread counts",
                "binary64 overflow of accumulated regret at |payoff| ~ 1e308 is a known finding (D13); generators keep |payoff| <= 1e6"]
@@ -40,9 +41,35 @@ def build(cid, t, st, method, T, r, threads, params, draws, yseed, meta=None):
     return cb
 
 
+def deep_chain(rng, depth, width):
+    """one player decides `depth` times in a row among `width` actions (all but one end the game): the reach of the
+    deepest infoset under the uniform strategy is width^-depth, far below the normal binary64 range"""
+    from ..gen import tree_stats
+    t = {"t": f2b(rng.uniform(-1, 1))}
+    for d in range(depth):
+        acts = [[a, {"t": f2b(rng.uniform(-1, 1))}] for a in range(1, width)]
+        acts.insert(rng.randrange(width), [width, t])
+        t = {"p": 1, "i": 1000 + d, "a": acts}
+    return t, tree_stats(t)
+
+
 def generate(rng, tier, n):
     cases = []
     cid = 0
+    # binary64 *underflow* stress (accumulated average strategies that become subnormal): strong averaging
+    # discount over many iterations, and reaches that underflow on a deep chain; judged by the monitor only
+    n_stress = max(4, n // 40)
+    for _ in range(n_stress):
+        if rng.random() < 0.3:
+            t, st = deep_chain(rng, rng.choice([200, 270]), 16)
+            cases.append(build(cid, t, st, rng.choice(["full", "sampled"]), rng.choice([1, 2]), 0.0, 1, rng.choice(["vanilla", None]),
+                               None, 0, {"scope": set(), "stress": "deep-chain"}))
+        else:
+            t, st = gen_tree(rng, max_nodes=rng.choice([15, 40]), max_depth=rng.choice([4, 6]))
+            params = [rng.choice([1.5, INF]), rng.choice([0.0, -INF, 0.5]), rng.choice([50.0, 100.0, 300.0]), rng.choice([INF, 0.0])]
+            cases.append(build(cid, t, st, rng.choice(["full", "external"]), rng.choice([600, 1500]), 0.0, 1, params,
+                               None, 0, {"scope": set(), "stress": "averaging-decay"}))
+        cid += 1
     while len(cases) < n:
         t, st = gen_tree(rng, max_nodes=rng.choice([6, 15, 40, 70]), max_depth=rng.choice([3, 5, 6]),
                          payoff_scale=rng.choice([1.0, 10.0, 1e6]))
@@ -176,7 +203,7 @@ def nontrivial(cb, impl):
 def classify(cb, impl):
     m = cb.meta
     return ["method_" + m["method"], "threads_%s" % (m["threads"] if m["threads"] < 100 else "huge"), "T_%d" % m["T"],
-            "draws_pinned" if m["pinned"] else "draws_live"]
+            "draws_pinned" if m["pinned"] else "draws_live"] + (["stress_" + m["stress"]] if m.get("stress") else [])
 
 
 def run(out, rng, tier, args):
